@@ -10,6 +10,29 @@ out=/verif/seeded/$name
 mkdir -p $out
 cp $src/patch.diff $src/seeded_demo.rs $out/ 2>/dev/null
 cp $src/meta.json $out/meta_agent.json 2>/dev/null
+if [ -n "${SKIPVERIFY:-}" ] && [ -f $out/meta.json ]; then
+  # already verified earlier: only re-run the checks and update the outcome
+  mkdir -p /tmp/evsave_$name && cp /verif/evidence/*.json /tmp/evsave_$name/ 2>/dev/null
+  git -C /repo apply $out/patch.diff
+  results=""
+  for p in $props; do
+    ( cd /verif && timeout 1800 ./check $p --tier quick > $out/check_$p.log 2>&1 ); rc=$?
+    v=$(grep -m1 "^VIOLATION" $out/check_$p.log | cut -c1-200)
+    results="$results\"$p\": {\"exit\": $rc, \"line\": \"$(echo $v | sed 's/"/\\"/g')\"}, "
+  done
+  git -C /repo checkout -- .
+  cp /tmp/evsave_$name/*.json /verif/evidence/ 2>/dev/null; rm -rf /tmp/evsave_$name
+  python3 - <<PY
+import json
+o='$out'
+meta=json.load(open(o+'/meta.json'))
+res=json.loads('{'+'''$results'''.rstrip(', ')+'}')
+meta['checks_run_against_it'].update(res)
+json.dump(meta,open(o+'/meta.json','w'),indent=1)
+print(json.dumps(res))
+PY
+  exit 0
+fi
 wt=/tmp/sv_$name
 git -C /repo worktree remove --force $wt 2>/dev/null
 git -C /repo worktree add --detach $wt HEAD >/dev/null 2>&1
